@@ -13,13 +13,13 @@ pub type LineSections<'a, S> = Vec<(S, &'a str)>;
 
 impl<'a, S: Default> CurrLine<'a, S> {
     //@ fn src/wrapping.rs wrap_line::CurrLine::reset
-    //@| ensures r.len == 0, r.line_segments@.len() == 0,
+    //@| ensures r.len == 0, r.line_segments@.len() == 0,  // @C07:curr_line.reset.is.empty
     //@ fn src/wrapping.rs wrap_line::CurrLine::push_and_set_len
-    //@| ensures final(self).len == len, final(self).line_segments@ == old(self).line_segments@.push(text),
+    //@| ensures final(self).len == len, final(self).line_segments@ == old(self).line_segments@.push(text),  // @C07:curr_line.push.appends.the.segment
     //@ fn src/wrapping.rs wrap_line::CurrLine::has_text
-    //@| ensures r == (self.len > 0),
+    //@| ensures r == (self.len > 0),  // @C07:curr_line.has_text
     //@ fn src/wrapping.rs wrap_line::CurrLine::text_len
-    //@| ensures r == self.len,
+    //@| ensures r == self.len,  // @C07:curr_line.text_len
 }
 
 
